@@ -3,6 +3,8 @@ package checks
 import (
 	"encoding/json"
 	"fmt"
+	"github.com/trustbloc/sidetree-go/pkg/api/operation"
+	"github.com/trustbloc/sidetree-go/pkg/document"
 	"strings"
 
 	"github.com/trustbloc/sidetree-go/pkg/api/protocol"
@@ -139,6 +141,52 @@ func c02Tamperings() []tampering {
 			s.Spec.PayloadEdit = func(p map[string]interface{}) { p["revealValue"] = other.Reveal(h.code) }
 			s.Facts.ParseOK = false
 		}},
+		{"jws-accepted-before-in-an-operation-of-another-type", "urd", func(h *histCtx, s *opStep) {
+			// A foreign key A signs ONE signed-data object that serves two operations: one of A's own DID, in which A's key is the
+			// key to verify under (accepted, and shown to the same applier first), and this operation of the victim's DID, where the
+			// victim's key is named and the signature - A's - does not verify under it. Must be refused whatever was verified before.
+			victim := s.Spec.Signer
+			a := gen.NewKey(h.r, h.keyType)
+			aSuffix := oracle.MustModelHash(h.code, map[string]interface{}{"attacker": h.r.Intn(1 << 30)})
+			primeDelta := map[string]interface{}{"updateCommitment": gen.NewKey(h.r, h.keyType).Commitment(h.code), "patches": []interface{}{gen.PAddAka("did:example:primed")}}
+			s.Spec.PayloadKey = victim.JWK()
+			s.Spec.Signer = a
+			target := s.Spec.Type
+			s.Spec.PayloadEdit = func(p map[string]interface{}) {
+				if target == "update" {
+					p["recoveryKey"] = a.JWK()
+					p["didSuffix"] = aSuffix
+				} else {
+					p["updateKey"] = a.JWK()
+					if _, ok := p["deltaHash"]; !ok {
+						p["deltaHash"] = oracle.MustModelHash(h.code, primeDelta)
+					}
+				}
+			}
+			s.Facts.SigOK = false
+			s.PostBuild = func(h *histCtx, s *opStep) {
+				if h.st == nil {
+					return
+				}
+				req := map[string]interface{}{"didSuffix": aSuffix, "revealValue": a.Reveal(h.code), "signedData": s.Built.JWS}
+				if target == "update" {
+					req["type"] = "deactivate"
+				} else {
+					req["type"] = "update"
+					req["delta"] = primeDelta
+					if target == "recover" {
+						req["delta"] = s.Built.Delta
+					}
+				}
+				prime := &operation.AnchoredOperation{Type: operation.Type(req["type"].(string)), UniqueSuffix: aSuffix, OperationRequest: oracle.MustJCS(req), TransactionTime: 5, ProtocolVersion: 0}
+				prev := &protocol.ResolutionModel{Doc: document.Document{}, UpdateCommitment: a.Commitment(h.code), RecoveryCommitment: a.Commitment(h.code)}
+				if _, err := h.st.Applier.Apply(prime, prev); err != nil {
+					h.c.Count("cross-type-replay:priming-operation-refused", 1)
+				} else {
+					h.c.Count("cross-type-replay:primed", 1)
+				}
+			}
+		}},
 		{"signed-data-carries-unused-members (valid)", "urd", func(h *histCtx, s *opStep) {
 			// members of the signed-data models that the protocol does not use for this type must not matter
 			s.Spec.PayloadEdit = func(p map[string]interface{}) {
@@ -203,6 +251,36 @@ func c02Tamperings() []tampering {
 			}
 			s.Spec.PostJWS = replaceHeaderUnsigned(map[string]interface{}{"alg": alg})
 			s.Facts.SigOK = false
+		}},
+		{"header-duplicate-alg-unsigned", "urd", func(h *histCtx, s *opStep) {
+			// {"alg":"none","alg":"<signed value>"}: a decoder that lets the last duplicate win would rebuild the signed header
+			alg := s.Spec.Signer.Alg()
+			s.Spec.Headers = map[string]interface{}{"alg": alg}
+			s.Spec.PostJWS = func(j string) string {
+				parts := strings.Split(j, ".")
+				parts[0] = oracle.B64([]byte(`{"alg":"` + fw.Pick(h.r, []string{"none", "HS256", "ES512", ""}) + `","alg":"` + alg + `"}`))
+				return strings.Join(parts, ".")
+			}
+			s.Facts.SigOK, s.Facts.ParseOK = false, false
+		}},
+		{"header-duplicate-kid-unsigned", "urd", func(h *histCtx, s *opStep) {
+			alg := s.Spec.Signer.Alg()
+			s.Spec.Headers = map[string]interface{}{"alg": alg, "kid": "k1"}
+			s.Spec.PostJWS = func(j string) string {
+				parts := strings.Split(j, ".")
+				parts[0] = oracle.B64([]byte(`{"alg":"` + alg + `","kid":"injected","kid":"k1"}`))
+				return strings.Join(parts, ".")
+			}
+			s.Facts.SigOK, s.Facts.ParseOK = false, false
+		}},
+		{"header-trailing-data-unsigned", "urd", func(h *histCtx, s *opStep) {
+			s.Spec.PostJWS = func(j string) string {
+				parts := strings.Split(j, ".")
+				raw, _ := oracle.B64DecodeStrict(parts[0])
+				parts[0] = oracle.B64(append(raw, []byte(fw.Pick(h.r, []string{`{"alg":"none"}`, `}`, `x`, `,"alg":"none"`, ` {}`, `[]`}))...))
+				return strings.Join(parts, ".")
+			}
+			s.Facts.SigOK, s.Facts.ParseOK = false, false
 		}},
 		{"kid-added-unsigned", "urd", func(h *histCtx, s *opStep) {
 			s.Spec.Headers = map[string]interface{}{"alg": s.Spec.Signer.Alg()}
